@@ -1,14 +1,19 @@
 /// Returns leap years between the year 0001 and the given year (exluding the year itself)
 pub(crate) fn leap_years(mut year: i32) -> u32 {
-    if year.is_positive() {
+    let before_common_era = year.is_negative();
+    if before_common_era {
+        // Astronomical year numbering (year -1 is 0), skipping the given year itself
+        year += 2;
+        if year.is_positive() {
+            return 0;
+        }
+    } else if year.is_positive() {
         year -= 1;
-    }
-    if year.is_negative() {
-        year += 1;
     }
     let year_abs = year.abs();
     let mut leaps = year_abs / 4 - year_abs / 100 + year_abs / 400;
-    if year.is_negative() {
+    if before_common_era {
+        // Year -1 (astronomical year 0) is a leap year
         leaps += 1;
     }
     leaps as u32
